@@ -1,0 +1,39 @@
+//go:build verif
+
+package clock
+
+// Contract DSL for the govc verifier (see /verif/DESIGN.md). This file and the other
+// zz_*_verif.go files are compiled only with the build tag `verif`; they contain contracts
+// (functions named spec_*, ext_*, fspec_*, lemma_*), pure specification functions (sp_*),
+// uninterpreted specification functions (uf_*) and ghost state (gh_*). Nothing in them is
+// ever called by the cache; govc reads them together with the real function bodies.
+
+func requires(args ...any)  {}
+func ensures(args ...any)   {}
+func invariant(args ...any) {}
+func decreases(args ...any) {}
+func modifies(args ...any)  {}
+func assumes(args ...any)   {}
+func asserts(args ...any)   {}
+func flag(name string)      {}
+func reveal(names ...string) {}
+func only(clause string, labels ...string) {}
+func hide(clause string, labels ...string) {}
+func set(target any, v any) {}
+func setall(target any, v any) {}
+func havoc(target any)      {}
+
+func old[T any](x T) T                 { return x }
+func all[T any](f func(T) bool) bool   { panic("spec") }
+func ex[T any](f func(T) bool) bool    { panic("spec") }
+func upto[T any](n int, f func(T) bool) bool  { panic("spec") }
+func anyof[T any](n int, f func(T) bool) bool { panic("spec") }
+func imp(a, b bool) bool               { return !a || b }
+func iff(a, b bool) bool               { return a == b }
+func ifelse[T any](c bool, a, b T) T   { if c { return a }; return b }
+func held(lock any) bool               { panic("spec") }
+func heldR(lock any) bool              { panic("spec") }
+func fresh(x any) bool                 { panic("spec") }
+
+type real float64
+type mathint int
